@@ -335,3 +335,76 @@ func fromitConservation(c caseInfo, st *implState) []fail {
 	}
 	return fails
 }
+
+// compactConservation: mode st, last stage `compact=<equivalence>` / `compactw`, driven by Next. "Compact elides
+// adjacent duplicates from s": at every executed line up to the first Close, the items handed out are the first
+// items of "what the source has delivered so far with adjacent duplicates elided" (the first item of every run
+// of adjacent duplicates, in order), and the end is reported only after the source's end with every such item
+// handed out. Judged in every case, also those with failed calls (expired per-call context, transient failure,
+// retried): the clause never asks which calls fail or what a failed call costs (C08), only that what is
+// handed out is what the documentation defines for the items the source delivered. After a hard failure
+// nothing more is judged.
+func compactConservation(c caseInfo, outs []string, st *implState) []fail {
+	tap := st.lastTap()
+	if tap == nil {
+		return nil
+	}
+	toks := c.builds[0]
+	k, arg := splitTok(toks[len(toks)-1])
+	same := relOf(arg)
+	if k == "compactw" {
+		same = eqV
+	}
+	params := mkParams("st", toks)
+	params["who"] = "compact"
+	trans := transientNames(toks)
+	elided := func(d []any) []any {
+		var out []any
+		for i, x := range d {
+			if i > 0 && same(d[i-1], x) {
+				continue
+			}
+			out = append(out, x)
+		}
+		return out
+	}
+	handed := 0
+	for i, o := range c.ops {
+		f := strings.Fields(o)
+		if f[0] != "next" || len(f) != 2 || c.nbuild+i >= len(st.tapAt) {
+			break
+		}
+		res, _ := splitOut(outs[i])
+		mark := st.tapAt[c.nbuild+i]
+		d := tap.got[:mark.n]
+		want := elided(d)
+		switch {
+		case strings.HasPrefix(res, "item "):
+			v := strings.TrimPrefix(res, "item ")
+			if handed >= len(want) || showV(want[handed]) != v {
+				nxt := "all of them have been handed out"
+				if handed < len(want) {
+					nxt = "the next one is " + showV(want[handed])
+				}
+				return []fail{{"c07-compact-items-st", params,
+					fmt.Sprintf("%s: op %d %q hands out item %s; its source has delivered %s, which with adjacent duplicates elided is %s, %d of them handed out so far (%s)",
+						strings.Join(toks, " "), i, o, v, showList(d), showList(want), handed, nxt)}}
+			}
+			handed++
+		case res == "end":
+			if !mark.ended || handed != len(want) {
+				why := "its source has not reported the end"
+				if mark.ended {
+					why = "an item that starts a run of adjacent duplicates was never handed out"
+				}
+				return []fail{{"c07-compact-items-st", params,
+					fmt.Sprintf("%s: op %d %q reports the end although %s (its source has delivered %s, which with adjacent duplicates elided is %s; handed out %d of them)",
+						strings.Join(toks, " "), i, o, why, showList(d), showList(want), handed)}}
+			}
+		case softAnswer(res, f[1] != "0", trans):
+		default:
+			return nil // hard failure (or panic: the value monitors report it): nothing more is judged
+		}
+	}
+	return nil
+}
